@@ -17,6 +17,7 @@ def decoy_only_files(rng, n):
 
 def run(rep, tier, seed, model_ok):
     rng = random.Random(seed)
+    parsechk.corpus_campaign(rep)
     n = 600 if tier == "quick" else 6000
     rep.cov["rule"] = ("generated files mixing decoys -- line, block and doc comments with statement-like text (also as the "
                        "last line without newline), unconfigured macros (other name, configured name as prefix/suffix, other "
